@@ -179,7 +179,7 @@ class gcnc_base(PseudoNetCDFFile):
 
         return outf
 
-    def stack(self, other, dimkey):
+    def stack(self, other, stackdim):
         from collections.abc import Iterable
         outf = self._copywith(props=True, dimensions=False)
         if isinstance(other, Iterable):
@@ -187,15 +187,18 @@ class gcnc_base(PseudoNetCDFFile):
         else:
             pfiles = [other]
 
-        outf = PseudoNetCDFFile.stack(self, other, dimkey)
+        outf = PseudoNetCDFFile.stack(self, other, stackdim)
+        if stackdim != 'time':
+            # the time axis is that of this file; nothing to rebuild
+            return outf
+
         tvar = outf.variables['time']
         tunits = tvar.units.strip()
         tres, rdatestr = tunits.split(' since ')
 
-        if dimkey == 'time':
-            times = self.getTimes()
-            for pfile in pfiles:
-                times = np.concatenate([times, pfile.getTimes()], axis=0)
+        times = self.getTimes()
+        for pfile in pfiles:
+            times = np.concatenate([times, pfile.getTimes()], axis=0)
 
         tformat = '%Y-%m-%d %H:%M:%S%z'
         rdate = times[0]
